@@ -39,6 +39,7 @@ type Obligation struct {
 func (o *Obligation) Name() string { return o.Prop + "/" + o.Func + "/" + o.Clause }
 
 type Verifier struct {
+	appliedCtr map[*Contract]bool // contracts applied at some call site of this run (audit of unused assumed contracts)
 	calledAsked map[string]bool // "func :: callee" -> recorded on some path (vacuity audit)
 	eng           *Engine
 	cs            *ContractSet
